@@ -105,6 +105,7 @@ theorem funcs_req_N (F : Facts) (fg : PGraph) : ∀ n : PNode,
       exact Or.inr (funcs_req_Bs F fg subs h r hr)
     | internal => simp [funcsOfNode] at h
     | intro => simp [funcsOfNode] at h
+    | introOpt => simp [funcsOfNode] at h
     | inline a b => simp [funcsOfNode] at h
     | op d o v => simp [funcsOfNode] at h
 theorem funcs_req_Bs (F : Facts) (fg : PGraph) : ∀ gs : List PGraph,
@@ -139,6 +140,10 @@ theorem funcs_req_subN (F : Facts) (fg : PGraph) : ∀ n : PNode,
       simp only [reqNode, List.mem_append]
       exact Or.inr (funcs_req_Gs F fg subs h r hr)
     | intro =>
+      simp only [subFuncsOfNode] at h
+      simp only [reqNode, List.mem_append]
+      exact Or.inr (funcs_req_Gs F fg subs h r hr)
+    | introOpt =>
       simp only [subFuncsOfNode] at h
       simp only [reqNode, List.mem_append]
       exact Or.inr (funcs_req_Gs F fg subs h r hr)
